@@ -16,7 +16,7 @@ Ident(n) == [i \in 1..n |-> i]
 Bogus == 99   \* a cell value that occurs in no content
 
 LeafKinds == {"flip", "truncate", "extend", "empty", "delete", "swap", "foreign"}
-RootKinds == {"flipslot", "fliproot", "dropkey", "dropbyte", "empty", "delete"}
+RootKinds == {"flipslot", "fliproot", "dropkey", "dropbyte", "empty", "delete", "keepkeys", "foreignroot"}
 
 \* the data a damaged LEAF blob holds afterwards
 LeafDamage(c, k, kind, arg) ==
@@ -37,6 +37,8 @@ LeafArgs(c, k, kind) ==
 RootArgs(c, kind) ==
   CASE kind = "flipslot" -> DOMAIN LeafKeys(c)
     [] kind = "dropkey"  -> IF LeafKeys(c) = <<>> THEN {} ELSE {0}
+    \* keep only the first arg 64-byte keys of the root blob (arg = 1: looks like an empty object's root)
+    [] kind = "keepkeys" -> 1..Len(LeafKeys(c))
     [] OTHER             -> {0}
 
 \* damage is real only if the bytes differ from what was stored
